@@ -17,6 +17,7 @@ class FakeFS(object):
         os.makedirs(self.root, exist_ok=True)
         self.log = []
         self.nops = 0
+        self.after_cp_hook = None  # callable(src, dst) run after each completed copy (used to line up concurrent transfers)
         self.fail_at = None  # ordinal of the call that fails once with a transient error (fault injection)
 
     def _tick(self, what):
@@ -83,6 +84,8 @@ class FakeFS(object):
             if os.path.isdir(d):
                 raise FakeDbfsError("java.io.IOException: destination %s is a directory" % dst)
             shutil.copyfile(s, d)
+        if self.after_cp_hook is not None:
+            self.after_cp_hook(str(src), str(dst))
         return True
 
     def rm(self, path, recurse=False):
